@@ -8,7 +8,7 @@ def run(ck, model_ok):
                'position) x thread counts 1..4 x with and without callback, under the cooperative scheduler; oracle: True iff undamaged; without callback a content / size / read '
                'error; with callback False and an error naming the damaged piece and a file set containing the altered file; schedules replayed on the Coq model; '
                'non-trivial = distinct (scenario, seed)')
-    pc.run_family(ck, model_ok, 'C02', [('verify', 1200, 80000)])
+    pc.run_family(ck, model_ok, 'C02', [('verify', 1200, 30000)])
     if model_ok:
         # which files a content error names: model (coq/model/Corrupt.v) against torf.VerifyContentError
         import torf
